@@ -17,7 +17,7 @@ from vp.worker import run_segment
 BASE_PATHS = ["/" + "/".join(t) for n in (1, 2, 3) for t in itertools.product("ab", repeat=n)]
 CONFUSERS = ["/ab", "/a/ab", "/ab/b", "/abb"]
 PATHS = BASE_PATHS + CONFUSERS
-PLACEMENTS = ["top", "helper", "child", "two_modules", "data"]
+PLACEMENTS = ["top", "helper", "child", "two_modules", "data", "method"]
 
 
 def overlapping(paths):
@@ -56,6 +56,13 @@ def prog_paths(pkg, paths, placement):
             p["fns"][h]["stmts"] = keeps
             main = gen.add_fn(p, m1, "main")
             p["fns"][main]["stmts"] = [gen.s_call(h, [])]
+        elif placement == "method":
+            # the first keep at top level, the others behind a method of a class (the method is not the first one of its class)
+            h = gen.add_fn(p, m0, "helper")
+            p["fns"][h]["stmts"] = keeps[1:]
+            cid = gen.add_cls(p, m0, "Job", const=4, calls=h)
+            main = gen.add_fn(p, m1, "main")
+            p["fns"][main]["stmts"] = keeps[:1] + ([gen.s_method(cid, "1")] if len(keeps) > 1 else [])
         else:  # two_modules: first keep in a helper of module a0, the rest in main of module a1
             h = gen.add_fn(p, m0, "helper")
             p["fns"][h]["stmts"] = keeps[:1]
